@@ -1,7 +1,7 @@
 /-
 Model of the squashed unpacker (C06): `unpack.go` — `unpack` after fix 590c924e (entries whose joined, cleaned
 path is not inside the target directory are skipped before anything is created), `pathOutsideBaseDirectory`,
-`UnpackSquashedFromTarball`'s three passes, directory entries created (fix <P7>) — and `symlink.go` — `TargetOutsideRoot` (lexical), `RemoveObsoleteSymlinks` —
+`UnpackSquashedFromTarball`'s three passes, directory entries created (fix 810097ff) — and `symlink.go` — `TargetOutsideRoot` (lexical), `RemoveObsoleteSymlinks` —
 over a POSIX-like file system state.
 
 The world is a sandbox directory `R` (the root `[]` of every path here); the unpack target is the directory `D`
@@ -106,7 +106,7 @@ def MkRes.state : MkRes → FS
   | .outside s => s
   | .fail s => s
 
-/-- `mkdirAllInside(dir, D/rel)` (fix <P6>): like `os.MkdirAll`, one level at a time from `D`; a level that exists
+/-- `mkdirAllInside(dir, D/rel)` (fix dccd4936): like `os.MkdirAll`, one level at a time from `D`; a level that exists
 (`os.Stat`, links followed) must be a directory; a missing level is created with `os.Mkdir` only if its parent, with
 symlinks evaluated (`pathOutsideBaseDirectory`), lies inside `D`.  `done` = the levels below `D` already passed. -/
 def mkdirAllIn (D : Path) (s : FS) : List String → List String → MkRes
@@ -173,7 +173,7 @@ def unpackStep (D : Path) (s : FS) (e : TarEntry) : Step :=
           | some _ => .fatal s1
   | 'l' =>
     let s1 := (mkdirAllIn D s [] rel.dropLast).state                 -- failure is logged only (SymlinkErrLog)
-    match resolveA D s1 D rel.dropLast with                          -- pathOutsideBaseDirectory(dir, fullPath) (fix <P6>)
+    match resolveA D s1 D rel.dropLast with                          -- pathOutsideBaseDirectory(dir, fullPath) (fix dccd4936)
     | .error _ => .ok s1
     | .ok pp =>
       if !isPrefix D pp then .ok s1 else
@@ -183,7 +183,7 @@ def unpackStep (D : Path) (s : FS) (e : TarEntry) : Step :=
       if s1.get pp != some .dir || tooLong name || (s1.get (pp ++ [name])).isSome then .ok s1
       else .ok (s1.put (pp ++ [name]) (.link (entryTarget e)))
   | 'd' =>
-    -- a directory entry makes its path a directory (fix <P7>); every failure is logged and the entry skipped
+    -- a directory entry makes its path a directory (fix 810097ff); every failure is logged and the entry skipped
     match mkdirAllIn D s [] rel.dropLast with
     | .fail s1 => .ok s1
     | .outside s1 => .ok s1
